@@ -978,6 +978,10 @@ impl Debugger {
     /// * `pid`: thread id
     pub fn backtrace(&self, pid: Pid) -> Result<Backtrace, Error> {
         disable_when_not_stared!(self);
+        // the thread id may come from a client (DAP `stackTrace`) and be stale or made up
+        if self.debugee.tracee_ctl().tracee(pid).is_none() {
+            return Err(Error::TraceeNotFound(pid.as_raw() as u32));
+        }
         self.debugee.unwind(pid)
     }
 
